@@ -296,6 +296,9 @@ func c12gen(g *gen, tier string, w *bufio.Writer) {
 			}
 			if g.chance(1, 5) {
 				evs = append(evs, "q@"+g.c12randomQuery())
+			} else if g.chance(1, 3) {
+				// the same key in another spelling: a hit must answer the query that is asked
+				evs = append(evs, "q@"+g.c12respell(g.pick(uni)))
 			} else {
 				evs = append(evs, "q@"+g.pick(uni))
 			}
@@ -721,4 +724,19 @@ func c12applyDiff(dir string, a, b int) error {
 	defer os.Remove(f.Name())
 	// the diff file's mtime is the SOA serial of `.` lines only; none here
 	return rdb.ApplyDiff(f.Name(), dir)
+}
+
+// c12respell changes the letter case of the name of a query event (`<loc>@<kind>@<namehex>.<rest>`).
+func (g *gen) c12respell(ev string) string {
+	p := strings.Split(ev, "@")
+	if len(p) != 3 {
+		return ev
+	}
+	i := strings.Index(p[2], ".")
+	if i < 0 {
+		return ev
+	}
+	name := strings.ToLower(string(unhexTok(p[2][:i])))
+	p[2] = hexTok([]byte(flipCase(name, g))) + p[2][i:]
+	return strings.Join(p, "@")
 }
